@@ -1,5 +1,4 @@
 #!/bin/bash
-# dev helper of the seeded-change campaign (works on scratch worktrees under /tmp/mut; not used by any registered check)
 # import_eval.sh <id>...: copy deliverables into /verif/seeded/<id> and evaluate against the quick check of the id's property
 cd /verif
 for i in "$@"; do
